@@ -202,7 +202,8 @@ Definition ps_reset : str := B [96;101;91;50;49;59;50;50;59;50;51;59;50;52;59;50
    (* `e[21;22;23;24;25;29;39;49m *)
 Definition ps_e (s : str) : str := B [96;101;91] ++ s ++ B [109].  (* `e[<s>m *)
 Definition powershell_quote (val : str) : str :=
-  if contains_any val powershell_ActionRawValues_any1 then B [39] ++ val ++ B [39] else val.
+  if contains_any val powershell_ActionRawValues_any1 || match val with c :: _ => beq c (byte 64) | [] => false end
+  then B [39] ++ replace1 powershell_quoter val ++ B [39] else val.
 Definition powershell_format (e : fenv) (m : meta) (values : list raw) : str :=
   json_array (flat_map (fun v =>
     match value v with
